@@ -106,8 +106,12 @@ def gen_case(r, thorough):
     resets = [r.randrange(nchunks) for _ in range(r.choice([0, 0, 0, 1, 2]))]
     setbufs = cm.gen_setbufs(r, nchunks, mode, cap, align, [6, 7, 9, 12, 64, 300, 1029, 1100, max(sizes), max(sizes) + 3], MIN_CAP) if r.random() < 0.25 else []
     opts = r.choice([0, 1]) | (4 if r.random() < 0.03 else 0)
+    regs = []
+    if r.random() < 0.3:      # which callbacks are registered: none / callback A / callback B, changed between chunks
+        regs = [(0, r.choice([0, 1, 2, 2]))] + [(r.randrange(nchunks), r.randrange(3)) for _ in range(r.choice([0, 1, 2]))]
+        regs = list(dict(regs).items())
     return {'mode': mode, 'cap': cap, 'align': align, 'tokens': tokens, 'kinds': kinds, 'cuts': cuts, 'resets': resets,
-            'setbufs': setbufs, 'chunking': ch, 'capclass': capc, 'opts': opts}
+            'setbufs': setbufs, 'chunking': ch, 'capclass': capc, 'opts': opts, 'regs': regs}
 
 
 def systematic_cases(r, thorough):
@@ -171,6 +175,11 @@ def systematic_cases(r, thorough):
     mx = cm.rtcm_frame(cm.rtcm_payload(r, 1023, 1077))
     for capx in (70000, 65536, 1029, 1028):
         out.append(mk('U', capx, 1, [mx, b'\xd3', mx, small], ['valid-max', 'stray-d3', 'valid-max', 'valid-small'], cuts=[500, 1029, 1031], capclass='max'))
+    # which callback is registered: none / A / B, fixed and changed mid-stream, three chunkings
+    for reg in range(3):
+        for cuts in ([], [10, 11, 40], list(range(1, len(sw) + len(small)))):
+            out.append(mk('U', 256, reg, [sw, small], ['swallow-many', 'valid-small'], cuts=cuts, capclass='mid', regs=[(0, reg)]))
+        out.append(mk('M', 200, 0, [small, sw, small], ['valid-small', 'swallow-many', 'valid-small'], cuts=[5, 20, 50], capclass='mid', regs=[(0, reg), (1, (reg + 1) % 3), (3, reg)]))
     # clamp test: the framer is told 2^31 + 5 / 2^33 bytes, the block is only as large as needed
     for claimed in (2 ** 31 + 5, 2 ** 33):
         out.append({'mode': 'U', 'cap': '%d/%d' % (claimed, tot + 8), 'align': 1, 'tokens': s, 'kinds': ['clamp'], 'cuts': [7], 'resets': [],
@@ -241,7 +250,8 @@ def check_results(ctx, results, model, impl):
             if bad:
                 ctx.violation(sig_of(c, 'sanitizer-report-with-reentrant-reset'), 'sanitizer report when the callback calls Reset()', {'line': line, 'impl': i})
             continue
-        ncb = sum(len(x.get('cbs', [])) for x in ssegs)
+        ncb = sum(len(x.get('cbs') or []) for x in ssegs)
+        ctx.count('callback-registration-changes', len(c.get('regs', [])))
         ctx.count('frames-dispatched', ncb)
         if ncb == 0:
             ctx.count('case-without-frames')
@@ -267,7 +277,7 @@ def check_results(ctx, results, model, impl):
         msegs = cm.parse_out(m)
         bad = None
         for k, (a, b) in enumerate(zip(isegs, msegs)):
-            if a['kind'] == 'D' and (cm.public(a) != cm.public(b) or b.get('flag') != 'ok'):
+            if a['kind'] == 'D' and (cm.public(a) != cm.public(cm.blind(b, a)) or b.get('flag') != 'ok'):
                 bad = k; break
             if a.get('adv') != b.get('adv'):
                 fa, fb = a.get('adv', '').split(','), b.get('adv', '').split(',')
@@ -333,7 +343,7 @@ def run(ctx):
                             'nested frames, reserved bits, FusionEngine messages, junk, false syncs) x chunkings (single, bytewise, single split, random incl. empty chunks) '
                             'x capacities (0..9, frame size -1/0/+1/+2/+3, 6..40, 40..400, 1028..2048, > stream, told 2^31+5 / 2^33) x user(4 alignments)/managed buffers '
                             'x Reset() and SetBuffer() at random chunk boundaries; systematic part: %s payload lengths x capacity size-1/size/size+1, all single splits of a 4-token stream. '
-                            'Added after the seeded-change audit: SetBuffer() between chunks on the same memory / smaller / larger / user<->managed / refused with parser state carried over (25 %% of histories, 1-3 calls), chunk boundaries at and +-1/+-2 around token ends, candidates swallowing 3-6 complete messages, >= 24 junk bytes then a stray preamble ending a call, messages larger than / equal to the capacity split at every offset, empty messages ending a call / the stream, every payload_size in 0xFFFFFFE0..0xFFFFFFFF (C07), messages and capacities > 64 KiB and 16384/16383 (implementation vs SPEC), WarnOnError on/off and std::function vs raw callback as case dimensions, callbacks that call Reset() re-entrantly (memory safety only), caller chunks at 4 start alignments ending exactly at the end of an exact-size heap block and compared bit-for-bit after the call, framer buffers pre-filled with sync-byte sentinels, callback pointers required to lie inside a buffer handed to the framer with payload == header + 24. A case is distinct by its full input line.' % ('all 1024' if ctx.thorough else '31'))
+                            'Added after the seeded-change audit: SetBuffer() between chunks on the same memory / smaller / larger / user<->managed / refused with parser state carried over (25 %% of histories, 1-3 calls), chunk boundaries at and +-1/+-2 around token ends, candidates swallowing 3-6 complete messages, >= 24 junk bytes then a stray preamble ending a call, messages larger than / equal to the capacity split at every offset, empty messages ending a call / the stream, every payload_size in 0xFFFFFFE0..0xFFFFFFFF (C07), messages and capacities > 64 KiB and 16384/16383 (implementation vs SPEC), WarnOnError on/off as a case dimension, every combination of registered callbacks (none / C-style / std::function / both; RTCM: none / A / replaced by B) set and changed between chunks — each registered callback must see each message once with identical arguments, with none registered the return values and counts are still judged, callbacks that call Reset() re-entrantly (memory safety only), caller chunks at 4 start alignments ending exactly at the end of an exact-size heap block and compared bit-for-bit after the call, framer buffers pre-filled with sync-byte sentinels, callback pointers required to lie inside a buffer handed to the framer with payload == header + 24. A case is distinct by its full input line.' % ('all 1024' if ctx.thorough else '31'))
     ctx.coverage['exhaustive'] = False
     ctx.trusted_base += ['Coq 8.16.1 kernel + vm_compute', 'extraction (ExtrOcamlBasic only), ocaml/conv.ml + c14_driver.ml',
                          'translators/gen_c14.py (constants and CRC table derived from the behaviour of the compiled framer / compiler-evaluated table, harness/cpp/c14_probe.cc)',
